@@ -102,7 +102,7 @@ def run_cli(script, args, stdin_mode='open', data=b'', timeout=180, env=None, ha
             pass
     return (out[0] if out else b''), (err[0] if err else b''), p.returncode, timed_out
 
-def run_cli_blocked(script, args, chunks, settle=1.0, timeout=180, hashseed='0', max_out=64 << 20, use_pty=False):
+def run_cli_blocked(script, args, chunks, settle=1.0, timeout=180, hashseed='0', max_out=64 << 20, use_pty=False, signal_when_blocked=None):
     """Back-pressure monitor: start the CLI with stdout on a pipe nobody reads, wait until the pipe is full and its fill level has stopped moving (the
     generator is then blocked inside a write, at a well-defined point of its stream), write `chunks` (each one write()) to the stdin pipe, wait until the
     child has consumed them and its stderr has been quiet for `settle` seconds, then drain stdout until the process ends.
@@ -148,6 +148,14 @@ def run_cli_blocked(script, args, chunks, settle=1.0, timeout=180, hashseed='0',
                 info['blocked'] = True; info['fill'] = n
                 break
             time.sleep(0.02)
+        if info['blocked'] and signal_when_blocked is not None:
+            # fault injection: the signal arrives while the generator sits inside a write to the full pipe
+            try:
+                p.send_signal(signal_when_blocked)
+                info['signalled'] = True
+            except Exception:
+                info['signalled'] = False
+            time.sleep(settle)
         if info['blocked']:
             # 2. the requests, each chunk in one write
             for c in chunks:
